@@ -13,7 +13,10 @@ RULE = ("Programs: G-core generated programs (let hints none / partial; failing 
         "function signatures stripped of their hints, and 14 hand-written templates whose inferred types stress the "
         "hint printer (closures and named functions as values, generic functions, tuples incl. 1-tuples, nested "
         "lists, empty list / None / Dict[] (NoValue arguments), Option / Result, enums, structs, generic structs, "
-        "destructuring, loop variables, pattern variables, type parameters). wrap-in-dbg: every expression node of "
+        "destructuring, loop variables, pattern variables, type parameters), and generated function-value programs "
+        "(lambdas / named functions used as values / functions returned from functions, each parameter and the "
+        "return type hinted or not; lets inside closures of generic functions; generic functions as values). "
+        "wrap-in-dbg: every expression node of "
         "the program (positions from the real parser via the hook; 3..5 random ones per program, statements "
         "included) is wrapped by the real `reftest-wrap-in-dbg`; the result must parse, print the same stdout and end "
         "the same way (same exit status and same error message, or none); stderr may only gain lines. "
@@ -182,6 +185,34 @@ println(string_repr(shadow(1)))
 """,
 ]
 
+
+def gen_fun_value_template(r):
+    """function values whose parameter / return types are hinted or not, reached as a lambda, a named function
+    used as a value, or a function returned from a function; inside plain and generic functions"""
+    n = r.int(1, 2)
+    hinted = [r.bool() for _ in range(n)]
+    params = ", ".join(f"p{i}: Int" if h else f"p{i}" for i, h in enumerate(hinted))
+    body, ret = r.choice([("string_repr(p0)", "String"), ("p0", None), ("[p0]", None), ("1", "Int"),
+                          ("println(string_repr(p0))", "Unit")])
+    ret_hint = f": {ret}" if ret and r.bool() else ""
+    args = ", ".join(str(i + 1) for i in range(n))
+    form = r.int(0, 4)
+    if form == 0:
+        return f"let fv = fun({params}){ret_hint} {{ {body} }}\nlet res = fv({args})\nprintln(string_repr(res))\n"
+    if form == 1:
+        return (f"fun named({params}){ret_hint} {{ {body} }}\nlet fv = named\nlet res = fv({args})\n"
+                f"println(string_repr(res))\n")
+    if form == 2:
+        return (f"fun make() {{\n  fun({params}){ret_hint} {{ {body} }}\n}}\nlet fv = make()\nlet res = fv({args})\n"
+                f"println(string_repr(res))\n")
+    if form == 3:
+        return (f"fun wrap<T>(x: T): List<T> {{\n  let f = fun() {{\n    let v = x\n    [v]\n  }}\n  f()\n}}\n"
+                f"fun helper<T>(y: T): T {{ y }}\nfun go() {{\n  let hv = helper\n  println(string_repr(hv(1)))\n}}\n"
+                f"println(string_repr(wrap(1)))\ngo()\n")
+    return (f"fun apply(f, x) {{ f(x) }}\nfun named({params}){ret_hint} {{ {body} }}\n"
+            f"let res = apply(fun(q) {{ q }}, 1)\nlet fv = named\nprintln(string_repr((res, fv({args}))))\n")
+
+
 STRIP_RE = re.compile(r"^(fun \w+)\(([^)]*)\)(: [^{]+)? \{", re.M)
 
 
@@ -195,7 +226,9 @@ def strip_signatures(src: str) -> str:
 
 
 def gen_program(r):
-    k = r.int(0, 9)
+    k = r.int(0, 11)
+    if k >= 10:
+        return "fun-value", gen_fun_value_template(r)
     if k <= 3:
         return "template", r.choice(TEMPLATES)
     knobs = G.Knobs(shadowing=True, annotations=r.choice(["none", "partial"]), errors=r.bool(),
